@@ -192,7 +192,7 @@ check("C13", "a replica applies the primary's log in order, exactly once", [
 
 check("C14", "a connected replica converges (reduced form: data path under an ideal link)", [
     ob("VerifC14_DataPathConverges", "pkg/replication", "primary program (puts, deletes, a 2-entry batch, a flush) with a replica session joining before/between/after; real initial-send, push, poll and resend paths into a recording stream; messages fed in order to a real Replica applying through EngineApplier into a second engine with acks; link drained; probe key reads equal on both sides",
-       "<=2 primary steps, join point 0..n, <=3 poll rounds, 2 keys, replica MaxBatchSize default or 16 bytes", "<=3 primary steps, join point 0..n, <=3 poll rounds, 2 keys, replica MaxBatchSize default or 16 bytes", q={"budget_s": 300}, t={"budget_s": 900}),
+       "<=2 primary steps, join point 0..n, <=3 poll rounds, 2 keys, replica MaxBatchSize default or 16 bytes, primary tuning: defaults / log sync mode none / batch budget 1 KB with 1.1 KB values", "<=3 primary steps, otherwise the same", q={"budget_s": 300}, t={"budget_s": 900}),
 ], [SIMFS, CLOCK, HASH, BLOOM, JSON, RAND, LOG, TIERA, "the link is ideal: every message the primary sends is delivered in order, retransmission requests are served at once"],
    ["the 'within bounded time' clause", "the replica's timer-driven state machine, reconnect and restart timing", "TCP/gRPC behaviour", "codec internals"])
 
@@ -200,6 +200,8 @@ check("C15", "replicas cannot stall or fail the primary (safety core)", [
     ob("VerifC15_StalledReplicaDoesNotBlockClients", "pkg/replication", "a replica whose stream Send never returns (optionally next to a healthy one); one client write meets it; a second client's read / write must still complete",
        "1-2 sessions, 2 client operations, preemption bound 1", q=P1, no_validate=True, reach=("probed",)),
     ob("VerifC15_PollVsWriteNoDeadlock", "pkg/replication", "a client write concurrent with the polling sender serving a healthy replica (what every tick of the stream loop calls), all three sync modes: both complete (compatible lock orders between the push path inside the log append and the poll path)",
+       "2 threads, preemption bound 2", q=P2, no_validate=True, reach=("probed", "done")),
+    ob("VerifC15_AckVsWriteNoDeadlock", "pkg/replication", "a client write concurrent with the processing of a replica's acknowledgement (session bookkeeping + the log retention check behind every acknowledgement, with an older log file present so that the check reaches the log), all three sync modes: both complete",
        "2 threads, preemption bound 2", q=P2, no_validate=True, reach=("probed", "done")),
     ob("VerifC15_HeartbeatVsWriteNoDeadlock", "pkg/replication", "the heartbeat sweep finding a replica dead (failing stream or silent beyond the timeout) concurrent with a client write and optionally an acknowledgement for that session: everything returns, the dead replica leaves the reported topology, the healthy one stays",
        "2-3 threads, preemption bound 1", "preemption bound 2", q=P1, t=P2, no_validate=True, reach=("probed", "done")),
